@@ -392,7 +392,20 @@ def gen_mts(rng, idx, tier):
         text_n = bias_block(rng, k, name, [v], tsf=(p["n"] if p["n"] > 1 else None))
         rng.setstate(st)
         text_1 = bias_block(rng, k, name, [v])
-        biases.append(dict(kind=k, name=name, n=p["n"], v=p["v"], text=text_n, text1=text_1))
+        b = dict(kind=k, name=name, n=p["n"], v=p["v"], text=text_n, text1=text_1)
+        if rng.random() < 0.3:
+            # scaledBiasingForce: the force handed to the variable is the bias force times a tabulated factor (1 outside the table);
+            # the time-step factor multiplies that product
+            # the table lives on the variable's own grid (boundaries and width)
+            npt = int(math.floor((v["hi"] - v["lo"]) / v["width"] + 0.5))
+            vals = [rng.choice([0.25, 0.5, 2.0, 3.0]) for _ in range(npt)]
+            b["scale"] = dict(file="scale_%s.dat" % name, vals=vals,
+                              text="# 1\n# %s %s %d %d\n\n" % (fnum(v["lo"]), fnum(v["width"]), npt, 1 if v["periodic"] else 0) +
+                                   "".join("%s %s\n" % (fnum(v["lo"] + (k + 0.5) * v["width"]), fnum(x)) for k, x in enumerate(vals)))
+            add = "  scaledBiasingForce on\n  scaledBiasingForceFactorsGrid %s\n}\n" % b["scale"]["file"]
+            b["text"] = b["text"][:-2] + add
+            b["text1"] = b["text1"][:-2] + add
+        biases.append(b)
     start = rng.choice([0, 0, rng.randint(1, 40)])
     return dict(idx=idx, sysm=sysm, vs=vs, vs1=vs1, vf=vf, biases=biases, X=history(rng, sysm, T), T=T, start=start,
                 off_schedule=off_schedule and any(b["n"] % vf[b["v"]] for b in biases))
@@ -482,7 +495,28 @@ def check_mts(c, case, res):
             any_awake = any(awake[j] for j in mine)
             own = (it % case["vf"][i] == 0)
             on_sched = all(case["biases"][j]["n"] % case["vf"][i] == 0 for j in mine)
-            terms = [case["biases"][j]["n"] * fl(R[j][t]["bias"][case["biases"][j]["name"]]["f"][0][0]) for j in mine if awake[j]]
+            terms = []
+            for j in mine:
+                if not awake[j]:
+                    continue
+                bj = case["biases"][j]
+                fj = fl(R[j][t]["bias"][bj["name"]]["f"][0][0])
+                if bj.get("scale"):
+                    # factor-1 reference with this bias alone: the variable receives (tabulated factor) x (bias force);
+                    # the factor itself is recomputed here from the table and the variable's value
+                    x = fl(R[j][t]["cv"][v["name"]]["x"][0])
+                    k = int(math.floor((x - v["lo"]) / v["width"]))
+                    sc = bj["scale"]["vals"][k] if 0 <= k < len(bj["scale"]["vals"]) else 1.0
+                    edge = abs((x - v["lo"]) / v["width"] - round((x - v["lo"]) / v["width"])) < 1e-9
+                    fref = fl(R[j][t]["cv"][v["name"]]["fa"][0])
+                    if not edge and abs(fref - sc * fj) > 4 * EPS * abs(sc * fj):
+                        if viol(c, "mts_force:scaled_reference:%s" % bj["kind"],
+                                "step %d: bias %s alone (factor 1, scaledBiasingForce): variable %s = %.17g receives %.17g; bias force %.17g x tabulated "
+                                "factor %g = %.17g" % (it, bj["name"], v["name"], x, fref, fj, sc, sc * fj), files, payload):
+                            return False
+                    c.bump("mts_scaled_force_terms")
+                    fj = fref
+                terms.append(bj["n"] * fj)
             fa = fl(ev_["fa"][0])
             if abs(fa - sum(terms)) > (len(terms) + 3) * EPS * sum(abs(x) for x in terms):
                 kind = "mts_force:variable_force"
@@ -588,6 +622,11 @@ def run(tier, replay):
 
     def do_mts(case):
         wd = os.path.join(c.work, "m%d" % case["idx"])
+        os.makedirs(wd, exist_ok=True)
+        for b in case["biases"]:
+            if b.get("scale"):
+                with open(os.path.join(wd, b["scale"]["file"]), "w") as f:
+                    f.write(b["scale"]["text"])
         res = {"mts": common.run_esim("plain", scen_mts(case, "mts")[0], wd, "mts", timeout=300)}
         for j in range(len(case["biases"])):
             res["r%d" % j] = common.run_esim("plain", scen_mts(case, j)[0], wd, "ref%d" % j, timeout=300)
